@@ -13,9 +13,20 @@ theorem useGrant_spec {s s' : State} {g e k : Nat} {x : Int} (h : useGrant s g e
             else { (dropGrant s g e k) with grants := (dropGrant s g e k).grants ++ [{ gr with limit := gr.limit - x }] }) := by
   unfold useGrant at h
   simp only [bind, Option.bind_eq_some_iff, pure, Option.some.injEq] at h
-  obtain ⟨gr, hg, _, h1, _, h2, rfl⟩ := h
+  obtain ⟨gr, hg, _, h1, _, h2, _, _, rfl⟩ := h
   have h1 := chk_some h1; have h2 := chk_some h2
   refine ⟨gr, hg, by simpa using h1, by simp at h2; omega, rfl⟩
+
+/-- a grant that is used only in part is saved again, which authz refuses unless its expiration lies strictly after
+    the block time: at exactly the expiry time a delegated action succeeds only if it uses the grant up -/
+theorem useGrant_partial_needs_future_expiry {s s' : State} {g e k : Nat} {x : Int} (h : useGrant s g e k x = some s') :
+    ∃ gr, findGrant s g e k = some gr ∧ (gr.limit - x = 0 ∨ gr.resavable s.time = true) := by
+  unfold useGrant at h
+  simp only [bind, Option.bind_eq_some_iff, pure, Option.some.injEq] at h
+  obtain ⟨gr, hg, _, _, _, _, _, h3, rfl⟩ := h
+  have h3 := chk_some h3
+  refine ⟨gr, hg, ?_⟩
+  simpa using h3
 
 theorem maxWithdraw_eq (p : Part) : p.maxWithdraw = p.crl - maxI 0 p.crMaxLoss := by
   unfold Part.maxWithdraw maxI
